@@ -98,12 +98,15 @@ func (p *FloatingIPPlugin) getSubnet(pod *corev1.Pod) (sets.String, error) {
 	} else {
 		var unallocatedIPRange [][]nets.IPRange // those does not have allocated ips
 		var ips []string
+		first := true
 		for i := range ipInfos {
 			if ipInfos[i] == nil {
 				unallocatedIPRange = append(unallocatedIPRange, ipranges[i])
 			} else {
 				ips = append(ips, ipInfos[i].IP.String())
-				if allocatedSubnets.Len() == 0 {
+				// an empty intersection so far means no node can route all the ips seen, it must not be filled again
+				if first {
+					first = false
 					allocatedSubnets.Insert(ipInfos[i].NodeSubnets.UnsortedList()...)
 				} else {
 					allocatedSubnets = allocatedSubnets.Intersection(ipInfos[i].NodeSubnets)
